@@ -97,6 +97,17 @@ def run(ck, models, tier):
                 else:
                     continue
                 break
+        # ---------------- R5.6 unwinding out of the injector's own destructor still restores newest-first
+        g_ = guard_roles(tm)
+        if g_.adt:
+            inj_, field_, idx_, kind_ = injector_adt(tm, g_.adt)
+            if inj_:
+                order, why, wh, dfn = teardown_order(tm, inj_, field_, g_.adt)
+                ins, _sites = insertion_discipline(tm, g_.adt)
+                ok = (ins == {"append"} and order == "lifo") or (ins == {"prepend"} and order == "fifo")
+                ck.ob("R5.6", "restore-order-survives-a-panic-at-scope-exit", tm.target, ok,
+                      "teardown of %s.%s: %s (a panic raised while guards are still stored hands them to the drop glue, which would "
+                      "restore oldest-first and leave a function faked twice un-restored)" % (short(inj_), field_, why), wh)
         # ---------------- R5.3 refusal before effects
         roots = patches.roots_and_roles(tm)
         checked = 0
